@@ -32,6 +32,7 @@ type c03Case struct {
 	Key    string        `json:"dedup_key,omitempty"`
 	BadExt string        `json:"malformed_extension,omitempty"`
 	Second bool          `json:"second_request_after,omitempty"` // a plain request for the same DAG after the first has finished
+	End    string        `json:"first_request_ends,omitempty"`   // "": runs to completion | "cancelled-before-start": the responder's request hook pauses it, the requestor cancels it, then the follow-up comes
 }
 
 type c03Out struct {
@@ -109,8 +110,19 @@ func c03Exchange(cs c03Case) (first, second *c03Out, d *harness.DAG) {
 		r := f.AddNode(peer.ID("R"), rs)
 		q := f.AddScript(peer.ID("Q"))
 		id := harness.MkID(1)
+		if cs.End == "cancelled-before-start" {
+			r.GS.RegisterIncomingRequestHook(func(p peer.ID, rd graphsync.RequestData, ha graphsync.IncomingRequestHookActions) {
+				if rd.ID() == id {
+					ha.PauseResponse()
+				}
+			})
+		}
 		q.Say(r.ID, harness.ReqMsg(gsmsg.NewRequest(id, d.Root.(cidlink.Link).Cid, sel.Node, 1, exts...)))
 		vsched.Quiesce()
+		if cs.End == "cancelled-before-start" {
+			q.Say(r.ID, harness.ReqMsg(gsmsg.NewCancelRequest(id)))
+			vsched.Quiesce()
+		}
 		first = collect(q, id, 0)
 		if cs.Second {
 			n0 := len(q.Inbox)
@@ -270,7 +282,12 @@ func c03Run(cs c03Case) (sig, what, class string) {
 	for _, i := range cs.Ignore {
 		ignore[d.Links[i].Binary()] = true
 	}
-	if sig, what = c03Judge(d, ref, first, ignore, cs.Skip, ""); sig != "" {
+	if cs.End == "cancelled-before-start" {
+		// the cancelled request itself sent nothing but statuses; what matters is that it left nothing behind
+		if first.nblocks > 0 {
+			return "blocks-sent-for-a-request-cancelled-before-it-started", detail + fmt.Sprintf("%d blocks", first.nblocks), class
+		}
+	} else if sig, what = c03Judge(d, ref, first, ignore, cs.Skip, ""); sig != "" {
 		return sig, detail + what, class
 	}
 	if second != nil {
@@ -278,7 +295,11 @@ func c03Run(cs c03Case) (sig, what, class string) {
 			return "no-response/follow-up-request", detail + "no response to the follow-up request", class
 		}
 		if sig, what = c03Judge(d, ref, second, map[string]bool{}, 0, "/follow-up-request"); sig != "" {
-			return sig, detail + "plain follow-up request after the first finished: " + what, class
+			how := "finished"
+			if cs.End != "" {
+				how = "was cancelled before it started (paused by the request hook)"
+			}
+			return sig, detail + "plain follow-up request after the first " + how + ": " + what, class
 		}
 	}
 	return "", "", class
@@ -341,6 +362,11 @@ func runC03(c *core.Ctx) {
 							// a plain follow-up request shows stale tracking state
 							v.Second = key != "" || (ign == 1 && k == 0)
 							variants = append(variants, v)
+							if (ign != 0 || k > 0 || key != "") && (c.Thorough() || (k <= 1 && (ign == 0 || ign == 1 || ign == (1<<n)-1))) {
+								w := v
+								w.Second, w.End = true, "cancelled-before-start"
+								variants = append(variants, w)
+							}
 						}
 					}
 				}
@@ -383,7 +409,7 @@ func runC03(c *core.Ctx) {
 
 func init() {
 	core.Register(&core.Prop{ID: "C03", Level: "exploration",
-		Rule:        "shape catalogue (N<=3 all, N=4 one form variant; thorough N<=4) + one 3-block shape of ~200KiB blocks (output spans several messages) x selectors x subsets of blocks in the responder's store x do-not-send-cids subsets x do-not-send-first-blocks 0..N+1 x dedup key {none,k} (+ a plain follow-up request after keyed requests) x 5 malformed extension payloads; a scripted requestor sends the request to a real responder and reads the wire; a class is a distinct (links, missing, root-miss, |ignore|, skip, keyed, malformed) combination",
+		Rule:        "shape catalogue (N<=3 all, N=4 one form variant; thorough N<=4) + one 3-block shape of ~200KiB blocks (output spans several messages) x selectors x subsets of blocks in the responder's store x do-not-send-cids subsets x do-not-send-first-blocks 0..N+1 x dedup key {none,k} (+ a plain follow-up request after keyed requests, and after a first request that was paused by the request hook and cancelled before it started) x 5 malformed extension payloads; a scripted requestor sends the request to a real responder and reads the wire; a class is a distinct (links, missing, root-miss, |ignore|, skip, keyed, malformed) combination",
 		Assumptions: []string{"reference: go-ipld-prime's walker over the responder's store gives the ordered (link, present/missing) list", "first blocks are counted per link traversal, present or missing (DESIGN 7); a block whose earlier occurrence in the request was skipped or sent is not sent again", "default schedule"},
 		Run:         runC03, QuickBudget: 300, ThoroughBudget: 2400,
 		Replay: func(raw json.RawMessage) string {
